@@ -10,10 +10,14 @@ from ..plrun import infer
 
 def render(prog, var):
     cls = [dict(c) for c in prog["clauses"]]
+    # a variant recorded for a larger program is projected onto a shrunk one (indices that no longer exist
+    # are dropped, clauses the permutation does not mention keep their place at the end)
     for ci, perm in (var.get("bodies") or {}).items():
-        c = cls[int(ci)]
-        c["body"] = [c["body"][j] for j in perm]
-    order = var.get("perm") or list(range(len(cls)))
+        if int(ci) < len(cls) and sorted(perm) == list(range(len(cls[int(ci)]["body"]))):
+            c = cls[int(ci)]
+            c["body"] = [c["body"][j] for j in perm]
+    order = [i for i in (var.get("perm") or []) if i < len(cls)]
+    order += [i for i in range(len(cls)) if i not in order]
     ctext = [clause_text(cls[i]) for i in order]
     qe = ["query(%s)." % atom_str(q) for q in prog.get("queries", [])] + [evidence_text(e) for e in prog.get("evidence", [])]
     if var.get("qe_reversed"):
@@ -47,8 +51,8 @@ class C07(DiffProp):
                  "with the order-free possible-world reference")
     rule = ("states = programs whose default run is correct; transitions = (program, permutation) executions; a "
             "permutation is non-trivial when the printed text differs from the original")
-    families = {"quick": [("FDUP", 4), ("F1.3e", 48), ("F3.1", 48), ("F2.2", 16), ("F2.3", 48), ("F1.3s", 48), ("F1.1", 4)],
-                "thorough": [("F1.3e", 48), ("FDUP", 4), ("F3.2", 192), ("F2.3", 64), ("F1.3s", 64), ("F1.2", 128), ("F3.1", 48), ("F2.2", 16), ("F1.1", 4)]}
+    families = {"quick": [("FC3/4", 48), ("FDUP", 4), ("F1.3e", 48), ("F3.1", 48), ("F2.2", 16), ("F2.3", 48), ("F1.3s", 48), ("F1.1", 4)],
+                "thorough": [("FC3", 48), ("F1.3e", 48), ("FDUP", 4), ("F3.2", 192), ("F2.3", 64), ("F1.3s", 64), ("F1.2", 128), ("F3.1", 48), ("F2.2", 16), ("F1.1", 4)]}
     maxfull = {"quick": 4, "thorough": 5}
     budget = {"quick": 300, "thorough": 2400}
 
